@@ -562,6 +562,9 @@ def stored_names(stmt):
     return out
 
 
+SETDEFAULT = "__setdefault__"
+
+
 def seq_env(stmts, upto=None, env=None, keep=()):
     """symbolic environment name -> defining expression (already substituted) after executing `stmts` in order;
     names written inside compound statements become opaque.  Stops before statement `upto` if given."""
@@ -613,6 +616,12 @@ def seq_env(stmts, upto=None, env=None, keep=()):
                     keys.append(k_)
                     vals.append(v_)
             env[nm_] = ast.Dict(keys=[ast.Constant(value=k_) for k_ in keys], values=vals)
+        elif isinstance(s, ast.Expr) and isinstance(s.value, ast.Call) and isinstance(s.value.func, ast.Attribute) and s.value.func.attr == "setdefault" \
+                and isinstance(s.value.func.value, ast.Name) and s.value.func.value.id in env and len(s.value.args) == 2 and not s.value.keywords \
+                and isinstance(s.value.args[0], ast.Constant) and isinstance(s.value.args[0].value, str):
+            # d.setdefault("k", v): the dictionary with k filled in where it is missing (kept as a marked expression; bind_call reads it)
+            nm_ = s.value.func.value.id
+            env[nm_] = ast.Call(func=ast.Name(id=SETDEFAULT, ctx=ast.Load()), args=[env[nm_], s.value.args[0], _SubstEnv(env).visit(copy.deepcopy(s.value.args[1]))], keywords=[])
         elif isinstance(s, ast.Assign) and len(s.targets) == 1 and isinstance(s.targets[0], ast.Subscript) and isinstance(s.targets[0].value, ast.Name) \
                 and s.targets[0].value.id in env and isinstance(s.targets[0].slice, ast.Constant) and isinstance(s.targets[0].slice.value, str) \
                 and _as_dict_literal(env[s.targets[0].value.id]) is not None:
@@ -1435,7 +1444,7 @@ def sliced_inverse_sites(prog, fi):
 CALLEE_DEFAULT = "__callee_default__"      # stands for "the keyword is left out: the callee's own default applies"
 
 
-def dictcomp_items(x):
+def dictcomp_items(x, prog=None, fi=None):
     """{k: v for k, v in {..literal..}.items() [if v] [if v is not None]}  (or over a literal tuple of (key, value) pairs): the entries as
     [(key, value)], a filtered value written `value if <test> else __callee_default__`; None when the comprehension is of another form"""
     if not (isinstance(x, ast.DictComp) and len(x.generators) == 1):
@@ -1448,6 +1457,12 @@ def dictcomp_items(x):
         pairs = list(zip(it.func.value.keys, it.func.value.values))
     elif isinstance(it, (ast.Tuple, ast.List)) and all(isinstance(e_, (ast.Tuple, ast.List)) and len(e_.elts) == 2 and isinstance(e_.elts[0], ast.Constant) for e_ in it.elts):
         pairs = [(e_.elts[0], e_.elts[1]) for e_ in it.elts]
+    elif isinstance(it, ast.Call) and isinstance(it.func, ast.Attribute) and it.func.attr == "items" and not it.args and prog is not None:
+        # the items of a dictionary that can itself be written out ({**TABLE, **kwargs}, a marked setdefault, ...)
+        sub = dict_items_of(prog, fi, it.func.value)
+        if sub is not None and not any(isinstance(v_, ast.IfExp) and isinstance(v_.orelse, ast.Name) and v_.orelse.id == CALLEE_DEFAULT and
+                                       not (isinstance(v_.test, ast.Name) and v_.test.id.startswith("<")) for _, v_ in sub):
+            pairs = [(ast.Constant(value=k_), v_) for k_, v_ in sub]
     if pairs is None or not (isinstance(g.target, ast.Tuple) and len(g.target.elts) == 2 and all(isinstance(t_, ast.Name) for t_ in g.target.elts)
                              and isinstance(x.key, ast.Name) and x.key.id == g.target.elts[0].id and isinstance(x.value, ast.Name) and x.value.id == g.target.elts[1].id):
         return None
@@ -1466,10 +1481,18 @@ def dictcomp_items(x):
         # getattr(obj, "name", None): the attribute (None when the object does not have it)
         if isinstance(vv, ast.Call) and isinstance(vv.func, ast.Name) and vv.func.id == "getattr" and len(vv.args) == 3 and isinstance(vv.args[1], ast.Constant) \
                 and isinstance(vv.args[2], ast.Constant) and vv.args[2].value is None:
-            vv = ast.Attribute(value=vv.args[0], attr=vv.args[1].value, ctx=ast.Load())
+            fields = None
+            if prog is not None and fi is not None and getattr(fi, "cls", None) is not None and src(vv.args[0]) == "self.run_params":
+                fields = prog.model_fields(fi.cls, "RunParamCls")
+            if fields is not None and vv.args[1].value not in fields:
+                vv = ast.Constant(value=None)        # the parameter model has no field of that name: the default of getattr
+            else:
+                vv = ast.Attribute(value=vv.args[0], attr=vv.args[1].value, ctx=ast.Load())
         if "truthy" in kinds:
             vv = ast.IfExp(test=copy.deepcopy(vv), body=vv, orelse=ast.Name(id=CALLEE_DEFAULT, ctx=ast.Load()))
         elif "notnone" in kinds:
+            if isinstance(vv, ast.Constant) and vv.value is None:
+                continue                              # always left out
             test = ast.Compare(left=copy.deepcopy(vv), ops=[ast.IsNot()], comparators=[ast.Constant(value=None)])
             vv = ast.IfExp(test=test, body=vv, orelse=ast.Name(id=CALLEE_DEFAULT, ctx=ast.Load()))
         items.append((kk.value, vv))
@@ -1528,6 +1551,113 @@ def _notnone_default(v, callee_node, name):
     return v
 
 
+def dict_items_of(prog, fi, x):
+    """[(key, value expression)] of a dictionary-valued expression as expanded at its use: a display with constant keys, dict(k=..),
+    the recognised comprehension forms, each possibly wrapped in d.setdefault(k, v) markers; None when it cannot be written out"""
+    items = None
+    fills = []
+    while isinstance(x, ast.Call) and isinstance(x.func, ast.Name) and x.func.id == SETDEFAULT and len(x.args) == 3:
+        fills.insert(0, (x.args[1].value, x.args[2]))
+        x = x.args[0]
+    if isinstance(x, ast.Dict) and all(isinstance(kk, ast.Constant) for kk in x.keys):
+        items = [(kk.value, v) for kk, v in zip(x.keys, x.values)]
+    elif isinstance(x, ast.Dict) and all(kk is None or isinstance(kk, ast.Constant) for kk in x.keys):
+        # {**a, "k": v, **b}: later entries win
+        items = []
+        for kk, v in zip(x.keys, x.values):
+            sub = dict_items_of(prog, fi, v) if kk is None else [(kk.value, v)]
+            if sub is None and kk is None:
+                sub = _kwargs_param_items(prog, fi, v)
+            if sub is None:
+                items = None
+                break
+            for sk, sv in sub:
+                prev = [b for a, b in items if a == sk]
+                if prev and isinstance(sv, ast.IfExp) and isinstance(sv.orelse, ast.Name) and sv.orelse.id == CALLEE_DEFAULT:
+                    sv = ast.IfExp(test=sv.test, body=sv.body, orelse=prev[-1])     # an entry that may be absent leaves the earlier one
+                items = [(a, b) for a, b in items if a != sk] + [(sk, sv)]
+    elif isinstance(x, ast.Call) and isinstance(x.func, ast.Name) and x.func.id == "dict" and not x.args and all(kw.arg for kw in x.keywords):
+        items = [(kw.arg, kw.value) for kw in x.keywords]
+    elif isinstance(x, ast.Call) and isinstance(x.func, ast.Attribute) and x.func.attr in ("model_dump", "dict") and not x.args:
+        inc = kwarg(x, "include")
+        if isinstance(inc, (ast.Set, ast.List, ast.Tuple)) and all(isinstance(e_, ast.Constant) and isinstance(e_.value, str) for e_ in inc.elts) \
+                and all(k_.arg in ("include", "exclude_none") for k_ in x.keywords):
+            # a pydantic model dumped field by field: {name: model.name}; with exclude_none the unset ones are left out
+            xn = kwarg(x, "exclude_none")
+            drop_none = isinstance(xn, ast.Constant) and xn.value is True
+            items = []
+            for e_ in sorted(inc.elts, key=lambda z: z.value):
+                v_ = ast.Attribute(value=copy.deepcopy(x.func.value), attr=e_.value, ctx=ast.Load())
+                if drop_none:
+                    v_ = ast.IfExp(test=ast.Compare(left=copy.deepcopy(v_), ops=[ast.IsNot()], comparators=[ast.Constant(value=None)]), body=v_,
+                                   orelse=ast.Name(id=CALLEE_DEFAULT, ctx=ast.Load()))
+                items.append((e_.value, v_))
+    if items is None and isinstance(x, ast.DictComp):
+        items = dictcomp_items(x, prog, fi)
+        if items is None:
+            items = _model_subset_items(prog, fi, x)
+    if items is not None and fills:
+        # d.setdefault(k, v): k keeps its entry; an entry that may be left out (`x if <set> else <not passed>`) falls back on v
+        for fk, fv in fills:
+            cur = [i for i, (kk, _) in enumerate(items) if kk == fk]
+            if not cur:
+                items.append((fk, fv))
+            else:
+                i = cur[-1]
+                vv = items[i][1]
+                if isinstance(vv, ast.IfExp) and isinstance(vv.orelse, ast.Name) and vv.orelse.id == CALLEE_DEFAULT:
+                    items[i] = (fk, ast.IfExp(test=vv.test, body=vv.body, orelse=fv))
+    elif fills:
+        items = None
+    return items
+
+
+def _kwargs_param_items(prog, fi, v):
+    """`**over` where `over` is the **kwargs parameter of fi: the keywords the callers inside the package hand over (closed world: every
+    call site writes its extra keywords out) - each as an entry that MAY be there"""
+    kwp = getattr(fi.node.args.kwarg, "arg", None)
+    if not (isinstance(v, ast.Name) and kwp is not None and v.id == kwp) or prog is None:
+        return None
+    if any(isinstance(n, ast.Name) and n.id == kwp and isinstance(n.ctx, (ast.Store, ast.Del)) for n in ast.walk(fi.node)):
+        return None
+    from .effects import _callers
+    named = set(params_of(fi.node)[0] + params_of(fi.node)[1])
+    keys = []
+    sites = _callers(prog, getattr(fi, "fi", fi))
+    if not sites:
+        return None
+    for g, c in sites:
+        if any(k.arg is None for k in c.keywords):
+            return None
+        for k in c.keywords:
+            if k.arg not in named and k.arg not in keys:
+                keys.append(k.arg)
+    return [(k, ast.IfExp(test=ast.Name(id=f"<{k} given by the caller>", ctx=ast.Load()), body=ast.Subscript(value=ast.Name(id=kwp, ctx=ast.Load()), slice=ast.Constant(value=k), ctx=ast.Load()),
+                          orelse=ast.Name(id=CALLEE_DEFAULT, ctx=ast.Load()))) for k in keys]
+
+
+def resolve_item(prog, fi, e):
+    """D["k"] / D.pop("k") / D.get("k") with D a dictionary that can be written out (dict_items_of): the entry"""
+    d = k = None
+    if isinstance(e, ast.Subscript) and isinstance(e.slice, ast.Constant) and isinstance(e.slice.value, str):
+        d, k = e.value, e.slice.value
+    elif isinstance(e, ast.Call) and isinstance(e.func, ast.Attribute) and e.func.attr in ("pop", "get") and len(e.args) >= 1 and not e.keywords \
+            and isinstance(e.args[0], ast.Constant) and isinstance(e.args[0].value, str):
+        d, k = e.func.value, e.args[0].value
+    if d is None:
+        return e
+    items = dict_items_of(prog, fi, d)
+    if items is None:
+        return e
+    hit = [v for kk, v in items if kk == k]
+    if not hit:
+        return e.args[1] if isinstance(e, ast.Call) and len(e.args) > 1 else e
+    v = hit[-1]
+    if isinstance(v, ast.IfExp) and isinstance(v.orelse, ast.Name) and v.orelse.id == CALLEE_DEFAULT:
+        return e            # the entry may be missing: the look-up itself could raise / give the default - left as it is
+    return v
+
+
 def bind_call(prog, fi, callee_node, call, bound=False):
     """bind_args, with `**name` resolved through the flow-sensitive environment when it is a dict literal / dict(...) call with
     constant keys.  Returns (mapping, errors, complete) - complete is False when some **kwargs could not be resolved."""
@@ -1559,15 +1689,7 @@ def bind_call(prog, fi, callee_node, call, bound=False):
         if k.arg is not None:
             continue
         x = expr_at(fi, call, k.value)
-        items = None
-        if isinstance(x, ast.Dict) and all(isinstance(kk, ast.Constant) for kk in x.keys):
-            items = [(kk.value, v) for kk, v in zip(x.keys, x.values)]
-        elif isinstance(x, ast.Call) and isinstance(x.func, ast.Name) and x.func.id == "dict" and not x.args and all(kw.arg for kw in x.keywords):
-            items = [(kw.arg, kw.value) for kw in x.keywords]
-        if items is None and isinstance(x, ast.DictComp):
-            items = dictcomp_items(x)
-            if items is None:
-                items = _model_subset_items(prog, fi, x)
+        items = dict_items_of(prog, fi, x)
         if items is None and isinstance(x, ast.Call) and isinstance(x.func, ast.Attribute) and x.func.attr in ("model_dump", "dict"):
             inc = kwarg(x, "include")
             if isinstance(inc, (ast.Set, ast.List, ast.Tuple)) and all(isinstance(e_, ast.Constant) and isinstance(e_.value, str) for e_ in inc.elts):
@@ -1744,7 +1866,7 @@ def forwarded_args(prog, fi, target_qual, depth=2, _seen=()):
             args = {}
             for p_ in pos + kwonly:
                 if p_ in m and isinstance(m[p_], ast.AST):
-                    args[p_] = expr_at(fi, c, m[p_])
+                    args[p_] = resolve_item(prog, fi, expr_at(fi, c, m[p_]))
             star = [k.value.id for k in c.keywords if k.arg is None and isinstance(k.value, ast.Name)]
             out.append({"call": c, "holder": fi, "chain": [fi.node.name], "args": args, "missing": [p_ for p_ in pos + kwonly if p_ not in m],
                         "complete": complete, "errors": errs, "outer_call": c, "star": star if not complete else []})
@@ -1754,10 +1876,18 @@ def forwarded_args(prog, fi, target_qual, depth=2, _seen=()):
         static = on_self and getattr(r, "is_static", False)      # self._helper(...) of a @staticmethod: no implicit first argument
         same_obj = on_self and not static
         if depth > 0 and r.qual not in _seen and r.node is not fi.node and ((r.cls is None and r.mod == fi.mod) or same_obj or static):
-            inner = forwarded_args(prog, r, target_qual, depth - 1, _seen + (fi.qual,))
+            m, errs, complete = bind_call(prog, fi, r.node, c, bound=same_obj)
+            # a helper that is steered by a label handed in as a literal (`self._derived("data")`): only the branch of that label counts
+            labels = {p_: a_.value for p_, a_ in m.items() if isinstance(a_, ast.Constant) and (a_.value is None or isinstance(a_.value, (str, bool)))}
+            r_view = r
+            if labels:
+                try:
+                    r_view = PrunedFn(r, labels, subst=True)
+                except Exception:
+                    r_view = r
+            inner = forwarded_args(prog, r_view, target_qual, depth - 1, _seen + (fi.qual,))
             if not inner:
                 continue
-            m, errs, complete = bind_call(prog, fi, r.node, c, bound=same_obj)
             hpos, hkw, _, hkwarg = params_of(r.node)
             hkwarg = getattr(hkwarg, "arg", hkwarg)
             hp = set(hpos + hkw) - ({"self"} if same_obj else set())
@@ -1940,13 +2070,83 @@ def _outcomes(stmts):
 
 
 # ----------------------------------------------------------------------------- hand-over of attributes / parameters to a callee
+def _read_point(fi, call, attr_src, order, pos):
+    """the statement at which the value `attr_src` that reaches `call` through a local name was read (the call itself when the
+    attribute is read in the argument list)"""
+    here = pos.get(id(call))
+    if here is None:
+        return call
+    assigns = [n for n in order if isinstance(n, ast.Assign) and len(n.targets) == 1 and isinstance(n.targets[0], ast.Name)]
+    best = None
+    for a in list(call.args) + [k.value for k in call.keywords]:
+        a = a.value if isinstance(a, ast.Starred) else a
+        cur, at, hops = a, call, 0
+        while isinstance(cur, ast.Name) and hops < 8:
+            prev = [x for x in assigns if x.targets[0].id == cur.id and pos[id(x)] < pos[id(at)]]
+            if not prev:
+                break
+            d = prev[-1]
+            hops += 1
+            if isinstance(d.value, ast.Attribute) and (src(d.value) == attr_src or src(expr_at(fi, d, d.value)) == attr_src):
+                if best is None or pos[id(d)] < pos[id(best)]:
+                    best = d
+                break
+            cur, at = d.value, d
+    return best if best is not None else call
+
+
 def attr_store_status(fi, at_node, attr_src):
     """for an expression like `self.run_params.DF` read at `at_node`: ("before", value) if the last store into it on the straight-line
     path precedes the read, ("after", value) if the first store comes later in the function, (None, None) if it is never stored"""
     order = [n for s_ in fi.node.body for n in ast.walk(s_)]
     pos = {id(n): i for i, n in enumerate(order)}
+    if isinstance(at_node, ast.Call):
+        # the attribute may have been read EARLIER than the call, into a local that is handed over (`tol = self.run_params.rtol` ...
+        # `f(rtol=tol)`): the point of the read is what counts
+        at_node = _read_point(fi, at_node, attr_src, order, pos)
     here = pos.get(id(at_node))
     before, after = None, None
+    # the object the field lives in (`self.run_params` of `self.run_params.DF`) may be replaced as a whole by an updated copy:
+    # self.run_params = <old>.model_copy(update={"DF": DF}) stores DF for every LATER read through `self.run_params` - but not for a
+    # read through a local name that was bound to the object before the replacement
+    obj_src, _, fld = attr_src.rpartition(".")
+    alias_at = None
+    # the read goes through a local name for the object (`rp.DF` with `rp = self.run_params` some statements earlier, possibly through
+    # further copies of the name): the object is the one the attribute held when that name was bound
+    reads = []
+    if isinstance(at_node, ast.Assign):
+        reads = [at_node.value]
+    elif isinstance(at_node, ast.Call):
+        reads = [a.value if isinstance(a, ast.Starred) else a for a in at_node.args] + [k.value for k in at_node.keywords]
+    for rd in reads:
+        if isinstance(rd, ast.Attribute) and rd.attr == fld and isinstance(rd.value, ast.Name) and rd.value.id != "self" and pos.get(id(at_node)) is not None:
+            al, lim, hops = rd.value.id, pos[id(at_node)], 0
+            while hops < 8:
+                hops += 1
+                binds = [x for x in order if isinstance(x, ast.Assign) and len(x.targets) == 1 and isinstance(x.targets[0], ast.Name) and x.targets[0].id == al
+                         and pos[id(x)] < lim]
+                if not binds:
+                    break
+                b_ = binds[-1]
+                if isinstance(b_.value, ast.Name):
+                    al, lim = b_.value.id, pos[id(b_)]
+                    continue
+                if src(b_.value) == obj_src:
+                    alias_at = pos[id(b_)]
+                break
+            if alias_at is not None:
+                break
+    for n in order:
+        if isinstance(n, ast.Assign) and len(n.targets) == 1 and isinstance(n.targets[0], ast.Attribute) and src(n.targets[0]) == obj_src \
+                and isinstance(n.value, ast.Call) and isinstance(n.value.func, ast.Attribute) and n.value.func.attr == "model_copy":
+            upd = expr_at(fi, n, kwarg(n.value, "update")) if kwarg(n.value, "update") is not None else None
+            if isinstance(upd, ast.Dict):
+                for k_, v_ in zip(upd.keys, upd.values):
+                    if isinstance(k_, ast.Constant) and k_.value == fld:
+                        if here is not None and pos[id(n)] < here and (alias_at is None or alias_at > pos[id(n)]):
+                            before = (n, v_)
+                        elif after is None and (here is None or pos[id(n)] > here or (alias_at is not None and alias_at < pos[id(n)])):
+                            after = (n, v_)
     for n in order:
         if isinstance(n, ast.Assign):
             pairs = []
@@ -1994,6 +2194,9 @@ def handover(prog, fi, callee_qual, want, depth=1):
             if a is None:
                 out.append((c, p_, None, f"argument for `{p_}` could not be expressed in the caller's scope"))
                 continue
+            if isinstance(a, ast.IfExp) and isinstance(a.orelse, ast.Name) and a.orelse.id == CALLEE_DEFAULT and isinstance(a.test, ast.Compare) \
+                    and len(a.test.ops) == 1 and isinstance(a.test.ops[0], ast.IsNot) and isinstance(a.test.comparators[0], ast.Constant) and a.test.comparators[0].value is None:
+                a = a.body          # left out only when None ("not set"): no setting is lost
             if isinstance(a, ast.IfExp) and isinstance(a.orelse, ast.Name) and a.orelse.id == CALLEE_DEFAULT:
                 inner = src(a.body, 120)
                 # dropping a falsy value matters where 0 / 0.0 / False is a legitimate setting: parameters whose default is a float or a bool
@@ -2031,5 +2234,51 @@ def handover(prog, fi, callee_qual, want, depth=1):
                     out.append((c, p_, False, f"`{p_}` <- `{txt}` is read BEFORE `{txt} = {src(v, 30)}` is executed: the value of the previous call is used"))
                     continue
             recognisable = isinstance(a, (ast.Name, ast.Constant, ast.Attribute)) or (isinstance(a, ast.Subscript) and isinstance(a.slice, ast.Constant))
-            out.append((c, p_, False if recognisable else None, f"`{p_}` receives `{txt}`, expected one of {sorted(sources)}"))
+            note = ""
+            if isinstance(a, ast.Attribute) and txt.startswith("self.run_params.") and a.attr in sources:
+                note = f" - the stored parameter as it was before this request (no store of this call's `{a.attr}` into it precedes the read)"
+            out.append((c, p_, False if recognisable else None, f"`{p_}` receives `{txt}`, expected one of {sorted(sources)}{note}"))
     return out
+
+
+def dropped_options_rule(prog, run, rule, quals):
+    """every call `f(.., **opts)` in the given functions whose options can be written out: an option whose value is a falsy CONSTANT that
+    is a setting (0, 0.0, False) and that is let through only when it is truthy never arrives - the callee's default is used"""
+    from .program import rel
+    n = 0
+    for q in quals:
+        fi = prog.functions[q]
+        f = rel(prog.mods[fi.mod].path)
+        for c in ast.walk(fi.node):
+            if not (isinstance(c, ast.Call) and any(k.arg is None for k in c.keywords)):
+                continue
+            for k in c.keywords:
+                if k.arg is not None:
+                    continue
+                items = dict_items_of(prog, fi, expr_at(fi, c, k.value))
+                if items is None:
+                    continue
+                n += 1
+                lost, unsure = [], []
+                # defaults of the callee: its own signature inside the package, the documented ones of the numpy reductions otherwise
+                r_ = prog.resolve_call(fi, c)
+                dflt = {}
+                if getattr(r_, "node", None) is not None and isinstance(r_.node, ast.FunctionDef):
+                    a_ = r_.node.args
+                    pos_ = [x_.arg for x_ in a_.posonlyargs + a_.args]
+                    dflt = {p_: d_.value for p_, d_ in zip(pos_[len(pos_) - len(a_.defaults):], a_.defaults) if isinstance(d_, ast.Constant)}
+                    dflt.update({k_.arg: d_.value for k_, d_ in zip(a_.kwonlyargs, a_.kw_defaults) if isinstance(d_, ast.Constant)})
+                elif (callee_name(prog, fi, c) or "").startswith("numpy."):
+                    dflt = {"axis": None, "keepdims": False, "dtype": None, "out": None}
+                for key, v in items:
+                    if isinstance(v, ast.IfExp) and isinstance(v.orelse, ast.Name) and v.orelse.id == CALLEE_DEFAULT and dump(v.test) == dump(v.body):
+                        b = v.body
+                        if isinstance(b, ast.Constant) and b.value is not None and not isinstance(b.value, str) and not b.value:
+                            if key in dflt and dflt[key] == b.value and type(dflt[key]) is type(b.value):
+                                continue            # what is dropped is the callee's default anyway
+                            (lost if key in dflt else unsure).append(f"{key}={b.value!r}")
+                run.ob(rule, fi.qual, f"options of `{src(c.func, 40)}`", (not lost) if not (unsure and not lost) else None,
+                       f"`{src(c, 70)}`" + ("" if not lost else f": {', '.join(lost)} is a setting, but the filter lets an option through only when it is truthy - it never arrives, the "
+                                                               f"default of {src(c.func, 30)} applies"), witness=",".join(lost), file=f, node=c)
+    if not n:
+        run.ob(rule, quals[0] if quals else "-", "option dictionaries", True, "no call with a spread option dictionary that can be written out")
